@@ -35,7 +35,14 @@ VECTORS = [("Hello, World!", "!;a-^H s^3a:)"),
            ("Padded with 0xFFÿÿÿÿÿÿÿÿ", "ÿÿÿÿÿÿÿÿ+YUo 7Y6V i:i;lO")]
 
 
+
 def shards(tier, seed):
+    out = _shards(tier, seed)
+    # what runs under -O also runs in an interpreter that turns every warning into an error (-W error)
+    return out + [dict(s, _pyflags=["-W", "error"]) for s in out if s.get("_pyflags") == ["-O"]]
+
+
+def _shards(tier, seed):
     out = [{"kind": "table"}, {"kind": "threads", "rounds": 3 if tier == "quick" else 12}] + [{"kind": "runs", "special": sp} for sp in (0xFF, 0x00, 0x7E, 0x21, 0x22, 0x50)]
     if tier == "quick":
         out += [{"kind": "alpha", "maxlen": 3, "first": None}]
